@@ -1,4 +1,4 @@
-from contracts import fold
+from contracts import fold, reach
 
 def build(tier):
-    return dict(targets=fold.targets(tier), assumptions=[], trusted_base=[])
+    return dict(targets=fold.targets(tier) + reach.targets(tier), assumptions=[], trusted_base=[])
